@@ -606,6 +606,12 @@ class Interp:
                 return fr["closure"][name]
         g = self.frames[-1]["globals"] if self.frames else {}
         if name in g:
+            ov = self.world.const_overrides.get(f"{g.get('__name__')}.{name}")
+            if ov is not None:
+                key = ("const", g.get("__name__"), name)
+                if key not in st.ghost:
+                    st.ghost[key] = self.fresh(ov, name)
+                return st.ghost[key]
             return self.lift(g[name], name)
         if hasattr(_bi, name):
             o = getattr(_bi, name)
@@ -1710,6 +1716,17 @@ class Interp:
             self.exec(s)
 
     def exec(self, node):
+        c = self.contract
+        if c is not None and c.havoc_stmts and self.depth == 0 and isinstance(
+                node, (ast.Assign, ast.AnnAssign)):
+            if _src(node) in c.havoc_stmts:
+                self.assumptions.add(f"statement treated as havoc (assumed not to raise): {_src(node)}")
+                targets = node.targets if isinstance(node, ast.Assign) else [node.target]
+                for t in targets:
+                    for y in ast.walk(t):
+                        if isinstance(y, ast.Name):
+                            self.st.env[y.id] = self.fresh_dyn(y.id)
+                return None
         m = getattr(self, "ex_" + type(node).__name__, None)
         if m is None:
             raise Unsupported(f"statement {type(node).__name__} (line {node.lineno})")
@@ -1994,6 +2011,23 @@ class Interp:
                         L.spec = lspec[1]
         # attributes modified by callees (through their modifies clauses / known mutators)
         attrs |= self.world.callee_modifies(self, calls)
+        def _dyn_callee(call):
+            f = call.func
+            base = f.value if isinstance(f, ast.Attribute) else f
+            if isinstance(base, ast.Name):
+                v = st.env.get(base.id)
+                return v is None or isinstance(v, (VDyn, VOpaque))
+            return True
+        if c is not None and c.dyn_call_ghost and any(_dyn_callee(x) for x in calls):
+            g0 = c.dyn_call_ghost[0]
+            self.ghost_get(g0)
+            st.ghost[g0] = VInt(z3.Int(self.namer.fresh("ghost_" + g0)))
+        # declared specs of scalar locals: havoc to a fresh value of that spec
+        if c is not None:
+            for lname, lspec in c.locals.items():
+                if lname in names and not (isinstance(lspec, tuple) and lspec and lspec[0] == "list"):
+                    st.env[lname] = self.fresh(lspec, lname)
+                    names = names - {lname}
         for g in self.world.callee_ghost_modifies(self, calls):
             self.ghost_get(g)
             st.ghost[g] = VInt(z3.Int(self.namer.fresh("ghost_" + g)))
@@ -2041,12 +2075,18 @@ class Interp:
             v0 = None
             if lc and lc.get("variant"):
                 v0 = self.as_int(self.spec_value(lc["variant"], ref), node)
+            fell_through = True
             try:
                 self.exec_block(node.body)
             except _Break:
                 return
             except _Continue:
-                pass
+                fell_through = False
+            if fell_through and lc and lc.get("step_post"):
+                # end-of-iteration assertions (may mention locals of the iteration just executed)
+                for clause in lc["step_post"]:
+                    g = self.spec_eval(clause, self.st.env, ref)
+                    self.oblige("STEP", f"loop {ordinal}: {clause}", g, self.cur_line)
             self.check_invariants(lc, "INV-PRES", ordinal, ref)
             if v0 is not None:
                 v1 = self.as_int(self.spec_value(lc["variant"], ref), node)
